@@ -307,3 +307,40 @@ def install_k04():
         if key not in _installed:
             mod.rewrite_lines = icontract.ensure(_k04_post, error=K16Broken)(mod.rewrite_lines)
             _installed.add(key)
+
+
+# ---------------------------------------------------------------------------------------
+# K12: argv construction in vcs.VCSAPI.__call__: one argv element per template token, whatever the values
+# contain. Observed argv comes from the audit hook (subprocess.Popen event), expected from the template.
+
+K12_WITNESSES = []
+K12_EVALS = [0]
+
+
+def install_k12():
+    harness.bv()
+    import shlex
+    import bumpver.vcs as vcs
+    key = ("bumpver.vcs", "VCSAPI.__call__")
+    if key in _installed:
+        return
+    orig = vcs.VCSAPI.__call__
+
+    def wrapped(self, cmd_name, env=None, **kwargs):
+        spawns = harness._STATE["spawns"]
+        n0 = len(spawns) if spawns is not None else 0
+        try:
+            return orig(self, cmd_name, env=env, **kwargs)
+        finally:
+            try:
+                K12_EVALS[0] += 1
+                tmpl = self.subcommands[cmd_name]
+                want = [tok.format(**kwargs) for tok in shlex.split(tmpl)]
+                got = spawns[n0] if spawns is not None and len(spawns) > n0 else None
+                if got != want and len(K12_WITNESSES) < 20:
+                    K12_WITNESSES.append((cmd_name, want, got))
+            except Exception:
+                pass
+
+    vcs.VCSAPI.__call__ = wrapped
+    _installed.add(key)
